@@ -287,8 +287,16 @@ func buildSchema(c sCase) *jsonapi.Schema {
 		}
 		return s
 	}
-	for _, op := range c.Hist {
+	for i, op := range c.Hist {
 		applySchemaOp(s, op)
+		if c.Names == 1 || i%2 == 0 {
+			// the queries in between the edits: whatever they keep from one call to the next
+			// (an index, a memoised listing or verdict) has to follow every kind of edit
+			_ = s.Check()
+			_ = s.Rels()
+			_ = s.HasType("zq")
+			_ = s.GetType("zq")
+		}
 	}
 	return s
 }
